@@ -102,24 +102,41 @@ pub fn describe_range(hr: &HandRange, with_eval: bool) -> String {
     };
     let mut out = format!("ok n={} map={} bad={} text={} rptext={} octext={} rp={} orph={} reparse={}", n, map, bad, text_s, rptext, octext, rp, orph, reparse);
     if with_eval {
-        // hand the range to the evaluator: flop 2h 2d 2c, the first three positions
+        // hand the range to the evaluator: flop 2h 2d 2c, three positions in the middle of the deck (turn 4s, rivers 4h 4d 4c)
         let req = IterReq { mode: "digest".to_string(), nextra: 0, board: [Some(card_of(49)), Some(card_of(50)), Some(card_of(51)), None, None],
-                            scope: (0, 1, 0, 4), set_scope: 1, ranges: vec![] };
-        let players = vec![hr.clone()];
+                            scope: (40, 41, 40, 44), set_scope: 1, ranges: vec![] };
+        // three players: two fixed ranges that share the ace of spades (AsKs | AsQs:0.5, 7d6d) listed BEFORE the range
+        // under test, so that a collision between two earlier players, an empty range beside non-empty ones, and the
+        // probability product over three weights are all exercised
+        let f1: HandRange = vec![(pair_of(52 * 0 + 4), 1.0f32)].into_iter().collect();
+        let f2: HandRange = vec![(pair_of(52 * 0 + 8), 0.5f32), (pair_of(52 * 30 + 34), 1.0f32)].into_iter().collect();
+        let players = vec![f1, f2, hr.clone()];
         let ev = match guarded(|| {
             let e = make_evaluator(&req, &players);
             let mut n = 0u64;
             let mut badsd = 0u64;
+            let mut dup = 0u64;
             for sd in e {
                 n += 1;
                 let p = sd.probability();
                 if !(0.0 <= p && p <= 1.0) {
                     badsd += 1;
                 }
+                let mut cs: Vec<usize> = sd.board().iter().map(card_code).collect();
+                for pl in sd.players() {
+                    cs.push(card_code(&pl.hole_cards()[0]));
+                    cs.push(card_code(&pl.hole_cards()[1]));
+                }
+                let len = cs.len();
+                cs.sort();
+                cs.dedup();
+                if cs.len() != len {
+                    dup += 1;
+                }
             }
-            (n, badsd)
+            (n, badsd, dup)
         }) {
-            Some((n, b)) => format!("ok n={} badprob={}", n, b),
+            Some((n, b, d)) => format!("ok n={} badprob={} dup={}", n, b, d),
             None => "panic".to_string(),
         };
         out.push_str(&format!(" ev={}", ev));
